@@ -22,24 +22,22 @@ MPAbsorb(tr0, Cs, zs, ys) ==
   FoldLeft(LAMBDA t, i : TAppendScalar(TAppendScalar(TAppendPoint(t, LblC, Cs[i]), LblZ, PFr(zs[i])), LblY, ys[i]),
            TDomainSep(tr0, LblMultiproof), [i \in 1 .. Len(Cs) |-> i])
 
-(* Prover.  ops: sequence of openings (non-empty).  Returns [D, ipa, tr]. *)
+(* Prover.  ops: sequence of openings (non-empty).  Returns [D, ipa, tr, ...].  (ELet: eager let, module Num.) *)
 MPProve(tr0, cfg, ap, ops) ==
   LET n   == Len(ops)
       idx == [i \in 1 .. n |-> i]
-      t1  == MPAbsorb(tr0, [i \in 1 .. n |-> ops[i].C], [i \in 1 .. n |-> ops[i].z], [i \in 1 .. n |-> ops[i].f[ops[i].z + 1]])
-      rho == TChallengeValue(t1, LblRr)
-      t2  == TAfterChallenge(t1, LblRr)
-      pw  == FPowers(WR, rho, n)
-      g   == FoldLeft(LAMBDA acc, i : FVecAdd(WR, acc, FVecScale(WR, pw[i], PQuotient(ap, ops[i].f, ops[i].z))), PZeroVec, idx)
-      D   == PCommit(cfg.G, g)
-      t3  == TAppendPoint(t2, LblD, D)
-      t   == TChallengeValue(t3, LblT)
-      t4  == TAfterChallenge(t3, LblT)
-      h   == FoldLeft(LAMBDA acc, i : FVecAdd(WR, acc, FVecScale(WR, FDiv(WR, pw[i], FSub(WR, t, PFr(ops[i].z))), ops[i].f)), PZeroVec, idx)
-      E   == PCommit(cfg.G, h)
-      t5  == TAppendPoint(t4, LblE, E)
-      ip  == IPAProve(t5, cfg, ap, ESub(E, D), FVecSub(WR, h, g), t)
-  IN  [D |-> D, ipa |-> ip.proof, tr |-> ip.tr, rho |-> rho, t |-> t, E |-> E]
+  IN
+  ELet(MPAbsorb(tr0, [i \in 1 .. n |-> ops[i].C], [i \in 1 .. n |-> ops[i].z], [i \in 1 .. n |-> ops[i].f[ops[i].z + 1]]), LAMBDA t1 :
+  ELet(TChallengeValue(t1, LblRr), LAMBDA rho :
+  ELet(FPowers(WR, rho, n), LAMBDA pw :
+  ELet(FoldLeft(LAMBDA acc, i : FVecAdd(WR, acc, FVecScale(WR, pw[i], PQuotient(ap, ops[i].f, ops[i].z))), PZeroVec, idx), LAMBDA g :
+  ELet(PCommit(cfg.G, g), LAMBDA D :
+  ELet(TAppendPoint(TAfterChallenge(t1, LblRr), LblD, D), LAMBDA t3 :
+  ELet(TChallengeValue(t3, LblT), LAMBDA t :
+  ELet(FoldLeft(LAMBDA acc, i : FVecAdd(WR, acc, FVecScale(WR, FDiv(WR, pw[i], FSub(WR, t, PFr(ops[i].z))), ops[i].f)), PZeroVec, idx), LAMBDA h :
+  ELet(PCommit(cfg.G, h), LAMBDA E :
+  ELet(IPAProve(TAppendPoint(TAfterChallenge(t3, LblT), LblE, E), cfg, ap, ESub(E, D), FVecSub(WR, h, g), t), LAMBDA ip :
+    [D |-> D, ipa |-> ip.proof, tr |-> ip.tr, rho |-> rho, t |-> t, E |-> E, g |-> g, h |-> h, w |-> ip.w, xs |-> ip.xs]))))))))))
 
 (* Verifier.  Cs, zs, ys: sequences; proof = [D, ipa].  Returns [ok, err, tr]. *)
 MPVerify(tr0, cfg, ap, proof, Cs, zs, ys) ==
@@ -48,17 +46,13 @@ MPVerify(tr0, cfg, ap, proof, Cs, zs, ys) ==
   ELSE
   LET n   == Len(Cs)
       idx == [i \in 1 .. n |-> i]
-      t1  == MPAbsorb(tr0, Cs, zs, ys)
-      rho == TChallengeValue(t1, LblRr)
-      t2  == TAfterChallenge(t1, LblRr)
-      pw  == FPowers(WR, rho, n)
-      t3  == TAppendPoint(t2, LblD, proof.D)
-      t   == TChallengeValue(t3, LblT)
-      t4  == TAfterChallenge(t3, LblT)
-      ks  == [i \in 1 .. n |-> FDiv(WR, pw[i], FSub(WR, t, PFr(zs[i])))]
-      E   == EMsm(ks, Cs)
-      g2  == FoldLeft(LAMBDA acc, i : FAdd(WR, acc, FMul(WR, ks[i], ys[i])), N0, idx)
-      t5  == TAppendPoint(t4, LblE, E)
-      v   == IPAVerify(t5, cfg, ap, ESub(E, proof.D), proof.ipa, t, g2)
-  IN  [ok |-> v.ok, err |-> v.err, tr |-> v.tr]
+  IN
+  ELet(MPAbsorb(tr0, Cs, zs, ys), LAMBDA t1 :
+  ELet(FPowers(WR, TChallengeValue(t1, LblRr), n), LAMBDA pw :
+  ELet(TAppendPoint(TAfterChallenge(t1, LblRr), LblD, proof.D), LAMBDA t3 :
+  ELet(TChallengeValue(t3, LblT), LAMBDA t :
+  ELet([i \in 1 .. n |-> FDiv(WR, pw[i], FSub(WR, t, PFr(zs[i])))], LAMBDA ks :
+  ELet(EMsm(ks, Cs), LAMBDA E :
+    IPAVerify(TAppendPoint(TAfterChallenge(t3, LblT), LblE, E), cfg, ap, ESub(E, proof.D), proof.ipa, t,
+              FoldLeft(LAMBDA acc, i : FAdd(WR, acc, FMul(WR, ks[i], ys[i])), N0, idx))))))))
 =============================================================================
